@@ -248,9 +248,8 @@ Lemma pres_page_up s m s' b : ViewOK s -> keypress_page_up s m = Ok (s', b) -> V
 Proof.
   intros Hs. unfold keypress_page_up.
   destruct (visible _ _ _ _ _ _ _) as [[v|]|]; [| now intros [= <- _] | discriminate].
-  destruct (pu_for _ _ _) as [t1 ro1]. destruct (pu_while _ _ _ _ _) as [t2 srs].
-  match goal with |- context [match ?tt with [] => Err OtherError | x0 :: tl => _ end] => destruct tt as [|x0 tl] end; [discriminate|].
-  match goal with |- context [let '(t, srs) := ?c in _] => destruct c as [t srs'] end.
+  destruct (pu_gather s m v) as [[sr t0] srs]. destruct t0 as [|x0 tl]; [discriminate|].
+  set (t := pu_candidates s m v).
   destruct (pu_loop1 _ _ _ _ _) as [[s1|st]|] eqn:E1; [| |discriminate].
   - intros [= <- _]. change (pres_ok (PDone s1)). eapply pres_pu_loop1; [|exact E1]. exact Hs.
   - assert (Hst : pres_ok (PCont st)) by (eapply pres_pu_loop1; [|exact E1]; exact Hs). cbn in Hst.
